@@ -25,7 +25,7 @@ USE_FORMS = [        # (template, label) ; {n} is the name
     ("{n} + 1", "must"), ("1 - {n}", "must"), ("-{n}", "must"), ("{n}[0]", "must"), ("d[{n}]", "must"),
     ("[{n}, 1]", "must"), ("({n}, 2)", "must"), ("{{1: {n}}}", "must"), ("{{{n}: 1}}", "must"), ("{n} == 3", "must"),
     ("x = {n}", "must"), ("x = call({n}.a)", "must"), ("return {n}", "must"), ("assert {n}", "must"), ("assert x, {n}", "must"),
-    ("y += {n}", "must"), ("x = {n}.a\n{n} = 5", "must"), ("call({n})\nfor {n} in range(2):\n    pass", "must"),
+    ("y += {n}", "must"), ("assert {n}.lo < {n}.hi", "must2"), ("call({n}, {n})", "must2"), ("x = {n}.a\n{n} = 5", "must"), ("call({n})\nfor {n} in range(2):\n    pass", "must"),
     # forms the statement does not pin
     ("call(k={n})", "any"), ("lambda: {n}", "any"), ("[i for i in {n}]", "any"), ("f'{{{n}}}'", "any"), ("x if {n} else 1", "any"),
     ("call(*{n})", "any"), ("not {n}", "must"), ("{n} and x", "any"), ("print({n}) if 1 else 2", "any"), ("{{{n}}}", "any"),
@@ -62,7 +62,7 @@ class Gen:
     def line_no(self):
         return len(self.lines)
 
-    def add_stmt(self, stmt, name, label, func, ind):
+    def add_stmt(self, stmt, name, label, func, ind, all_occurrences=False):
         """emit stmt (may be multi-line) and record the first occurrence of name in it as a site"""
         base = self.line_no()
         txt = indent(stmt, ind)
@@ -71,9 +71,10 @@ class Gen:
         # locate the token: first whole-word occurrence
         import re
         for i, l in enumerate(txt.split("\n")):
-            m = re.search(r"(?<![\w.])" + re.escape(name) + r"(?!\w)", l)
-            if m:
-                self.sites.append({"line0": base + i, "col_b": len(l[:m.start()].encode()), "name": name, "label": label, "func": func})
+            ms = list(re.finditer(r"(?<![\w.])" + re.escape(name) + r"(?!\w)", l))
+            if ms:
+                for m in (ms if all_occurrences else ms[:1]):
+                    self.sites.append({"line0": base + i, "col_b": len(l[:m.start()].encode()), "name": name, "label": label, "func": func})
                 return
         raise AssertionError("name not found in stmt")
 
@@ -110,8 +111,14 @@ def gen_doc(rng):
         ind = 4 if kind == "method" else 0
         if kind == "method":
             g.emit(f"class TestK{g.k}:")
+        public = None
         if kind == "fixture":
-            g.emit(indent(rng.choice(["@pytest.fixture", "@pytest.fixture(scope=\"module\")"]), ind))
+            if rng.random() < 0.3:
+                # published under another name: inside the body that name is an ordinary (undeclared) fixture name
+                public = rng.choice(VISIBLE)
+                g.emit(indent(f'@pytest.fixture(name="{public}")', ind))
+            else:
+                g.emit(indent(rng.choice(["@pytest.fixture", "@pytest.fixture(scope=\"module\")"]), ind))
         elif rng.random() < 0.2:
             g.emit(indent("@pytest.mark.slow", ind))
         d = "async def" if is_async else "def"
@@ -154,6 +161,8 @@ def gen_doc(rng):
         local_bound = {}
         for _ in range(rng.randint(1, 5)):
             name = rng.choice(VISIBLE + INVISIBLE + ["os", "plainlocal"])
+            if public and public not in declared and rng.random() < 0.5:
+                name = public
             r = rng.random()
             if r < 0.2 and name not in local_bound:
                 form = rng.choice(BIND_FORMS + BIND_ANY)
@@ -193,7 +202,10 @@ def gen_doc(rng):
             if "return" in stmt and rng.random() < 0.5:
                 pass
             # nested indentation inside block forms
-            g.add_stmt(stmt, name, label, fname, bi)
+            both = label == "must2" or lab == "must2"
+            if label == "must2":
+                label = "must"
+            g.add_stmt(stmt, name, label, fname, bi, all_occurrences=both)
             if "\n" + name + " = 5" in stmt or "\nfor " + name + " in" in stmt:
                 local_bound.setdefault(name, ("strong", g.line_no()))
             if stmt.startswith("return") or stmt.startswith("raise"):
